@@ -549,7 +549,7 @@ func c20Run(p *c20pool, jobs []c20job, inject *rand.Rand, start time.Time, rec *
 			}
 			shape := p.vals[u].Shape
 			w := rt.MustLeaf(RandT(r, shape, -1, 1), true)
-			variant := r.Intn(5)
+			variant := r.Intn(6)
 			if e := span("private-graph+BackPropagate", []int{u}, func() error {
 				// the shared untracked tensor enters the private graph through an implicitly broadcasting
 				// operation or DIRECTLY as an operand of ElMax / ElMin / Patch / Concat
@@ -569,6 +569,18 @@ func c20Run(p *c20pool, jobs []c20job, inject *rand.Rand, start time.Time, rec *
 					h, err = tensor.Concat([]tensor.Tensor{w, p.ts[u]}, 0)
 					if err == nil {
 						h, err = h.Slice([]tensor.Range{{From: 0, To: shape[0]}})
+					}
+				case variant == 5 && len(shape) >= 1: // ONE private tracked node at four operand positions of one operation (four shares for one tensor)
+					var hs tensor.Tensor
+					if hs, err = w.Mul(p.ts[u]); err == nil {
+						if h, err = tensor.Concat([]tensor.Tensor{hs, hs, hs, hs}, 0); err == nil {
+							if h, err = h.Slice([]tensor.Range{{From: shape[0], To: 2 * shape[0]}}); err == nil {
+								var m tensor.Tensor
+								if m, err = hs.ElMax(hs); err == nil {
+									h, err = h.Add(m)
+								}
+							}
+						}
 					}
 				default:
 					h, err = w.Mul(p.ts[u])
@@ -659,8 +671,74 @@ func c20Run(p *c20pool, jobs []c20job, inject *rand.Rand, start time.Time, rec *
 	return out, nil
 }
 
+// c20Storm: far more goroutines than processors (128 / 256), all inside reducers, layer and loss evaluation on ONE shared
+// tensor at once: whatever bounded resource the library might hold while building a result (slots, pooled buffers) is
+// over-subscribed; every goroutine must still get the sequential result and nobody may block for good.
+func c20Storm(k *fw.K, G int) {
+	k.Case = map[string]any{"scenario": "reducer / layer storm on one shared tensor", "goroutines": G}
+	k.Key("storm/G%d", G)
+	pool, err := c20BuildPool(k.Rng)
+	if err != nil {
+		k.Failf("building the shared pool failed: %v", err)
+		return
+	}
+	a := 0
+	for pool.kinds[a] != "large-untracked-leaf" {
+		a++
+	}
+	jobs := []c20job{{kind: "reducers", a: a}, {kind: "layer", seed: 7}, {kind: "reducers", a: 3}, {kind: "layer", seed: 11}}
+	want, err := c20Run(pool, jobs, nil, time.Now(), nil)
+	if err != nil {
+		k.Failf("sequential reference run failed: %v", err)
+		return
+	}
+	results := make([][]uint64, G)
+	errs := make([]error, G)
+	startCh := make(chan struct{})
+	var wg sync.WaitGroup
+	for g := 0; g < G; g++ {
+		wg.Add(1)
+		go func(g int) {
+			defer wg.Done()
+			defer func() {
+				if r := recover(); r != nil {
+					errs[g] = fmt.Errorf("PANIC in goroutine %d: %v", g, r)
+				}
+			}()
+			<-startCh
+			results[g], errs[g] = c20Run(pool, jobs, nil, time.Now(), nil)
+		}(g)
+	}
+	close(startCh)
+	stop := c20StallMonitor(fmt.Sprintf("case %d (storm of %d goroutines)", k.Index, G))
+	wg.Wait()
+	close(stop)
+	for g := range results {
+		if errs[g] != nil {
+			k.Failf("goroutine %d of %d: %v", g, G, errs[g])
+			return
+		}
+		if len(results[g]) != len(want) {
+			k.Failf("goroutine %d of %d produced %d results, the sequential run %d", g, G, len(results[g]), len(want))
+			return
+		}
+		for i := range want {
+			if results[g][i] != want[i] {
+				k.Failf("goroutine %d of %d: result %d differs from the sequential execution of the same jobs", g, G, i)
+				return
+			}
+		}
+	}
+	k.Count("goroutines_run", int64(G))
+	k.Count("results_compared_with_sequential_run", int64(G*len(want)))
+}
+
 func runC20(c *fw.Ctx) {
 	c20Canary()
+	for _, G := range []int{128, 256} {
+		G := G
+		c.Case(func(k *fw.K) { c20Storm(k, G) })
+	}
 	Gs := []int{2, 4, 8, 16, 32}
 	if !c.Quick() {
 		Gs = append(Gs, 64)
